@@ -317,14 +317,158 @@ def check_case(ctx, case_seed):
             ctx.count('C04.unbound_is_plain')
 
 
+CHAIN_HEAD = """import functools
+from sigtools import specifiers
+class Retry(object):
+    def __init__(self, nxt): self.nxt = nxt
+    @specifiers.forwards_to_method('nxt.call')
+    def call(self, *args, **kwargs): return self.nxt.call(*args, **kwargs)
+class Tagged(Retry):
+    pass
+class Own(object):
+    def __init__(self, nxt): self.nxt = nxt
+    @specifiers.forwards_to_method('nxt.call')
+    def call(self, a, *args, **kwargs): return self.nxt.call(*args, **kwargs)
+class OwnK(object):
+    def __init__(self, nxt): self.nxt = nxt
+    @specifiers.forwards_to_method('nxt.call')
+    def call(self, *args, b=None, **kwargs): return self.nxt.call(*args, **kwargs)
+class Deco(object):
+    def __init__(self, func): self.func = func
+    @specifiers.forwards_to_ivar('func')
+    def __call__(self, *args, **kwargs): return self.func(*args, **kwargs)
+class DecoSub(Deco):
+    pass
+class B(object):
+    def __init__(self, fn): self.fn = fn
+    @specifiers.forwards_to_method('fn')
+    def run(self, *args, **kwargs): return self.fn(*args, **kwargs)
+class A(B):
+    @specifiers.forwards_to_super()
+    def run(self, a, *args, **kwargs): return super().run(*args, **kwargs)
+class AA(A):
+    @specifiers.forwards_to_super()
+    def run(self, *args, b=None, **kwargs): return super().run(*args, **kwargs)
+@specifiers.apply_forwards_to_super('run')
+class A2(B):
+    def run(self, a, *args, **kwargs): return super(A2, self).run(*args, **kwargs)
+"""
+
+
+@core.guarded(lambda case_seed: dict(workload='decl-chain', case_seed=case_seed))
+def check_chain(ctx, case_seed):
+    """Declared chains whose links are decided by the INSTANCE, not by its class: the same wrapper class nested in
+    itself (delegating objects, decorator objects), and forwards_to_super methods whose parent forwards to a
+    per-instance callable, on several instances of one class inspected in seeded orders, each more than once.
+    Oracle as everywhere in W-DECL: every call shape is really executed."""
+    import sigtools
+    rnd = random.Random(case_seed)
+    leaves = sigs.U(('x', 'y', 'z'), 2, stars=sigs.STARS2[:1])
+    kind = rnd.choice(('nested-delegates', 'nested-decorator-objects', 'super-per-instance'))
+    nleaf = rnd.choice((1, 2, 2, 3))
+    ips = [rnd.choice(leaves) for _ in range(nleaf)]
+    ctx.evaluated()
+    ctx.count('C04.declared_chains')
+    ctx.count('C04.chain_' + kind)
+    src = CHAIN_HEAD
+    for k, ip in enumerate(ips):
+        r = sigs.render(ip)
+        src += 'class Leaf%d(object):\n    def call(self%s): return None\n' % (k, (', ' + r) if r else '')
+        src += 'def leaf%d(%s): return None\n' % (k, r)
+    own = []
+    if kind == 'nested-delegates':
+        layers = [rnd.choice(('Retry', 'Retry', 'Tagged')) for _ in range(rnd.randint(1, 4))]
+        for extra, nm in (('Own', 'a'), ('OwnK', 'b')):
+            if rnd.random() < 0.35:
+                layers.insert(rnd.randint(0, len(layers)), extra)
+                own.append(nm)
+        exprs = []
+        for k in range(nleaf):
+            e = 'Leaf%d()' % k
+            for l in reversed(layers):
+                e = '%s(%s)' % (l, e)
+            exprs.append(e + '.call')
+    elif kind == 'nested-decorator-objects':
+        layers = [rnd.choice(('Deco', 'Deco', 'DecoSub')) for _ in range(rnd.randint(1, 4))]
+        exprs = []
+        for k in range(nleaf):
+            e = 'leaf%d' % k
+            for l in reversed(layers):
+                e = '%s(%s)' % (l, e)
+            exprs.append(e + rnd.choice(('', '.__call__')))
+    else:
+        cls = rnd.choice(('A', 'AA', 'A2'))
+        layers = [cls]
+        own = {'A': ['a'], 'AA': ['a', 'b'], 'A2': ['a']}[cls]
+        exprs = ['%s(leaf%d).run' % (cls, k) for k in range(nleaf)]
+    for k, e in enumerate(exprs):
+        src += 'target%d = %s\n' % (k, e)
+    rp = dict(workload='decl-chain', case_seed=case_seed, source=src)
+    w = {'source': src[len(CHAIN_HEAD):], 'kind': kind, 'layers': layers}
+    try:
+        g = sigs.compile_module(src, tag='vchain')
+    except Exception as e:
+        V(ctx, 'decoration-raises-%s' % type(e).__name__, 'declaring the chain raised %s: %s' % (type(e).__name__, e), w, rp)
+        return
+    # seeded order of retrievals; every target is asked at least twice, with others in between
+    order = list(range(nleaf)) * 2
+    rnd.shuffle(order)
+    ob = tuple((nm, PK, None, None) for nm in own)
+    seen = {}
+    for k in order:
+        target = g['target%d' % k]
+        if rnd.random() < 0.5:
+            # the bound object is looked up afresh (another bound-method object over the same instance)
+            pass
+        try:
+            S = sigtools.signature(target)
+        except Exception as e:
+            V(ctx, 'chain-retrieval-raises-%s' % type(e).__name__, 'sigtools.signature raised %s on a declared chain: %s' % (type(e).__name__, e),
+              dict(w, target=exprs[k]), rp)
+            return
+        res = bparams(S)
+        if k in seen:
+            ctx.count('C04.chain_repeated_retrievals')
+            if seen[k] != res:
+                V(ctx, 'chain-answer-changes', 'the same declared chain is reported differently the second time',
+                  dict(w, target=exprs[k], first=show_params(seen[k]), then=show(S)), rp)
+                return
+            continue
+        seen[k] = res
+        ib = sigs.shape_key(ips[k])
+        ctx.nontrivial((kind, tuple(layers), ib))
+        ctx.sample('declared-chain', lambda: dict(w, target=exprs[k], signature=show(S)), limit=4)
+        sp = oracle.space_for([ob, ib, res])
+        nc = sp.noncolliding(res, [ob, ib])
+        acc = sp.acc(res)
+        real = sp.acc_callable(target)
+        ctx.count('C04.chain_executed')
+        ctx.count('C04.calls_executed', sp.nshapes)
+        bad = acc & nc & ~real
+        if bad:
+            V(ctx, 'declared-chain-unsound', 'a non-colliding call accepted by the signature of a declared chain raises TypeError when executed',
+              dict(w, target=exprs[k], signature=show(S), shape=sp.first(bad)), rp)
+            return
+        lost = real & nc & ~acc
+        if lost:
+            V(ctx, 'declared-chain-inexact', 'a non-colliding call rejected by the signature of a declared chain executes fine',
+              dict(w, target=exprs[k], signature=show(S), shape=sp.first(lost)), rp)
+            return
+
+
 def run(ctx):
     rnd = ctx.rng('decl')
     n = {'quick': 4000, 'thorough': 400000}[ctx.tier] // ctx.nshards
-    for _ in range(n):
+    for j in range(n):
         if ctx.out_of_time('declared wrappers'):
             break
         check_case(ctx, rnd.getrandbits(48))
+        if j % 8 == 0:
+            check_chain(ctx, rnd.getrandbits(48))
 
 
 def replay(ctx, rec):
-    check_case(ctx, rec['case_seed'])
+    if rec.get('workload') == 'decl-chain':
+        check_chain(ctx, rec['case_seed'])
+    else:
+        check_case(ctx, rec['case_seed'])
